@@ -140,6 +140,49 @@ def run(res, f, tier):
         ok = not bad or wiring(bad[0]["missing"]) == wiring(bad[0]["unexpected"])
         ob(ok, "C10|dispatch|%s" % kind, "node kind %s does not pass its own name / index to the lookup" % kind,
            {"expected": wiring(bad[0]["missing"]) if bad else None, "actual": wiring(bad[0]["unexpected"]) if bad else None})
+    # the addressed data is the one the *written* path names: the step `.N` / `.name` of the text must become
+    # Index(.., Vec(N)) / Index(.., Map(name)) with N and name as written.  That is a statement about the grammar's
+    # action terms, which C07 decides for every sentence of the precedence table; its verdict on the sentences that
+    # contain an access step is imported.
+    import c07
+    from framework import Result, Inconclusive
+    r07 = Result("C07", "other")
+    try:
+        c07.run(r07, f, tier)
+        def step_args(trees):
+            """the step argument (last argument) of every Index(..) term in the parse trees, as a sorted list"""
+            out = []
+            for tr in trees if isinstance(trees, list) else [trees]:
+                tr = str(tr)
+                for m in re.finditer(r"\bIndex\(", tr):
+                    depth, i, last = 1, m.end(), m.end()
+                    while i < len(tr) and depth:
+                        ch = tr[i]
+                        if ch == "(":
+                            depth += 1
+                        elif ch == ")":
+                            depth -= 1
+                        elif ch == "," and depth == 1:
+                            last = i + 1
+                        i += 1
+                    out.append(tr[last:i - 1].strip())
+            return sorted(out)
+        steps = []
+        for v in r07.violations:
+            if not v["key"].startswith("C07|grammar|"):
+                continue
+            for w in (v.get("detail") or {}).get("witnesses", []):
+                # a sentence parsed differently is C07's; it is C10's when the written steps themselves differ
+                # (a parser result that is not a plain tree — value-dependent, retokenised, reject — is not attributed to the step)
+                plain = all(isinstance(x, list) and x and not any(str(y).startswith("<") for y in x) for x in (w["table_says"], w["parser_does"]))
+                if plain and " DOT " in " %s " % w["tokens"] and step_args(w["table_says"]) != step_args(w["parser_does"]):
+                    steps.append({"key": v["key"], "what": "`%s` -> table: %s, parser: %s" % (w["tokens"], w["table_says"], w["parser_does"])})
+                    break
+        ob(not steps, "C10|written-step",
+           "an access step written in the text does not become the index node with the written position / name: %s" % [v["what"][:200] for v in steps[:3]],
+           {"c07_findings": [v["key"] for v in steps]})
+    except Inconclusive as e:
+        res.floor_failures.append("imported grammar verdict on access steps (C07) unavailable: %s" % e)
     res.floor("lookup obligations", obligations, 37)
     res.coverage = {
         "explanation": "MIR summaries of the reference lookup (x10 input tags), symbol and function table lookups, the 20 cells of the index step and the "
